@@ -60,6 +60,9 @@ class Adapter(EnvAdapter):
                    probe_every=3, probe_cap=30),
                 _c("c20v3_sparse", 20, 3, "sparse", 3, ["complete", "masked", "finish_at_limit"],
                    probe_every=6, probe_cap=36),
+                # a user's generator: capacity 12 and demands up to 6 where the paper's scenario says 20 / 10
+                dict(_c("c6v2_cap12_dense", 6, 2, "dense", 5, ["complete", "masked", "lazy", "finish_at_limit", "random"],
+                        probe_every=2, probe_cap=30), ctor=dict(num_customers=6, num_vehicles=2, reward_fn="dense", custom=(12, 6))),
                 # one of the large shipped scenarios (map 20, capacity 150, 4 vehicles): the int16 fields hold real values
                 _c("c50v4_dense", 50, 4, "dense", 2, ["complete", "masked"], probe_every=25, probe_cap=20),
             ]
@@ -68,6 +71,10 @@ class Adapter(EnvAdapter):
             for rew in ("dense", "sparse"):
                 out.append(_c(f"c{n}v{v}_{rew}", n, v, rew, 16 if n == 6 else 8, full,
                               probe_every=1 if n == 6 else 4, probe_cap=40 if n == 6 else 60))
+        out.append(dict(_c("c6v2_cap12_dense", 6, 2, "dense", 16, full, probe_every=1, probe_cap=40),
+                        ctor=dict(num_customers=6, num_vehicles=2, reward_fn="dense", custom=(12, 6))))
+        out.append(dict(_c("c20v3_cap25_sparse", 20, 3, "sparse", 8, full, probe_every=4, probe_cap=60),
+                        ctor=dict(num_customers=20, num_vehicles=3, reward_fn="sparse", custom=(25, 9))))
         # the large shipped scenarios (map 20, capacities 150 / 300 / 180, up to 5 vehicles, step limit up to 300)
         for (n, v, rew) in ((50, 2, "sparse"), (50, 4, "dense"), (50, 5, "sparse"), (100, 3, "dense"), (100, 5, "sparse"),
                             (150, 5, "dense")):
@@ -83,6 +90,16 @@ class Adapter(EnvAdapter):
         if (n, v) == (20, 2) and rew == "dense":
             return MultiCVRP()  # the registered default (MultiCVRP-v0): own generator, DenseReward
         gen = UniformRandomGenerator(num_customers=n, num_vehicles=v)
+        if ctor.get("custom"):
+            # a generator of the user's own: the shipped one with another vehicle capacity / maximal demand than the paper's
+            # scenario for this size (the environment takes its settings from the generator it is given)
+            class OwnCapacity(UniformRandomGenerator):
+                def __init__(self, n, v, cap, dmax):
+                    super().__init__(num_customers=n, num_vehicles=v)
+                    self._max_capacity = cap
+                    self._customer_demand_max = dmax
+
+            gen = OwnCapacity(n, v, *ctor["custom"])
         cls = DenseReward if rew == "dense" else SparseReward
         return MultiCVRP(generator=gen, reward_fn=cls(v, n, gen._map_max))
 
@@ -94,7 +111,7 @@ class Adapter(EnvAdapter):
 
     def cfg_record(self, cfg, env):
         c = cfg["ctor"]
-        cap, dmax = _SCENARIO[(c["num_customers"], c["num_vehicles"])]
+        cap, dmax = c.get("custom") or _SCENARIO[(c["num_customers"], c["num_vehicles"])]
         map_max, msw, early, late = _BY_CUSTOMERS[c["num_customers"]]
         return {"num_customers": c["num_customers"], "num_vehicles": c["num_vehicles"], "reward_fn": c["reward_fn"],
                 "map_max": map_max, "max_capacity": cap, "customer_demand_max": dmax,
